@@ -591,6 +591,7 @@ def rule_serializer_flow(chk):
 def rule_message_copies(chk):
     """A Message never shares its contents dictionary with the caller or with messages bound from it."""
     ctx = chk.ctx
+    rule_write_fresh(chk)
     init = ctx.func("_message", "Message.__init__")
     cp = init.params[1]
     ok = any(isinstance(n, ast.Assign) and common.is_self_attr(n.targets[0], "_contents") and common._fresh_container(n.value) and cp in unparse(n.value) for n in iter_own_nodes(init.node))
@@ -614,6 +615,29 @@ def rule_message_copies(chk):
                 fail="%s hands out / mutates the message's own contents dictionary (%s)" % (q, bad))
     common.rule_instance_state(chk, "C13", [("_validation", "_MessageSerializer"), ("_message", "Message")])
     common.rule_defaults(chk, "C13", modules=("_validation", "_message", "_output"))
+
+
+def rule_write_fresh(chk):
+    """The dictionary Message.write hands to log_message / Action.log is built afresh on every call: it receives per-write
+    routing keys (logger, serializer), which must not survive into the next write of the same Message."""
+    ctx = chk.ctx
+    mw = ctx.func("_message", "Message.write")
+    lm_ = ctx.func("_action", "log_message")
+    names = set()
+    for n in iter_own_nodes(mw.node):
+        if isinstance(n, ast.Call) and any(k.arg is None for k in n.keywords) and (lm_ in ctx.targets(mw, n) or (isinstance(n.func, ast.Attribute) and n.func.attr == "log")):
+            for k in n.keywords:
+                if k.arg is None and isinstance(k.value, ast.Name):
+                    names.add(k.value.id)
+    chk.need(names, "Message.write: the **fields splat into log_message / action.log not found")
+    bad = []
+    for nm in sorted(names):
+        vals = assigned_values(mw, nm)
+        for v in vals:
+            if v is None or not common._fresh_container(v):
+                bad.append("%s = %s" % (nm, unparse(v) if v is not None else "<unpacked>"))
+    chk.req(not bad, "C13.copy", "Message.write:fields-built-afresh-per-write", chk.where(mw),
+            good="the splatted dictionary is a fresh copy made in this call", fail="the dictionary written is not made afresh in this call (%s): keys stored for one write (logger, serializer) leak into later writes" % "; ".join(bad))
 
 
 def rule_field_guard(chk):
